@@ -46,7 +46,7 @@ ASSUMPTIONS = [
     "the states recorded by the pass-through wrappers on UPSequentialSimulator.get_initial_state/apply are the states the environment uses",
 ]
 SHARD_TIMEOUT = {"quick": 900, "thorough": 5400}
-BOUNDS = {"quick": dict(n=120, seeds=8, steps=6), "thorough": dict(n=2000, seeds=20, steps=6)}
+BOUNDS = {"quick": dict(n=120, seeds=8, steps=6), "thorough": dict(n=6000, seeds=20, steps=6)}
 
 
 def plan(tier, seed):
